@@ -186,7 +186,47 @@ class Check:
         if axioms:
             self.trusted.append("axioms reported by Print Assumptions: " + ", ".join(axioms))
         self.obl = (len(thms), len(thms), thms)
+        # C01 and C05 run coqchk themselves in their thorough tier
+        if self.tier == "thorough" and os.environ.get("VERIF_COQCHK", "1") != "0" and self.pid not in ("C01", "C05"):
+            self._start_coqchk(mod)
         return True
+
+    # ---- independent re-check of the compiled theorems (thorough tier)
+    def _start_coqchk(self, mod):
+        """coqchk re-checks Props/<mod>.vo and everything it depends on with the
+        independent checker and prints the axioms relied on (-o). It runs in the
+        background while the correspondence cases are evaluated."""
+        import threading
+        self._coqchk = {"mod": mod, "rc": None, "out": ""}
+
+        def work():
+            try:
+                p = subprocess.run(["nice", "coqchk", "-silent", "-o", "-Q", ".", "MV", "MV.Props." + mod],
+                                   cwd=COQ, stdout=subprocess.PIPE, stderr=subprocess.STDOUT, text=True,
+                                   timeout=int(os.environ.get("VERIF_COQCHK_TIMEOUT", "3000")))
+                self._coqchk["rc"], self._coqchk["out"] = p.returncode, p.stdout
+            except subprocess.TimeoutExpired:
+                self._coqchk["rc"], self._coqchk["out"] = -1, "coqchk timed out"
+        t = threading.Thread(target=work, daemon=True)
+        t.start()
+        self._coqchk["thread"] = t
+
+    def _join_coqchk(self):
+        c = getattr(self, "_coqchk", None)
+        if not c:
+            return
+        c["thread"].join()
+        out = c["out"]
+        m = re.search(r"\* Axioms:\s*(.*?)\n\s*\n", out, re.S)
+        axioms = " ".join(m.group(1).split()) if m else "?"
+        if c["rc"] == 0:
+            self.trusted.append("coqchk -o MV.Props.%s: ok, Axioms: %s" % (c["mod"], axioms))
+        elif c["rc"] == -1:
+            self.trusted.append("coqchk -o MV.Props.%s: not finished within the time limit (not a verdict)" % c["mod"])
+        else:
+            self.trusted.append("coqchk -o MV.Props.%s: FAILED" % c["mod"])
+            if not self.proof_broken:
+                self.proof_broken = "coqchk rejected MV.Props.%s:\n%s" % (c["mod"], out[-2000:])
 
     # ---- implementation side
     def run_go(self, runner, cases, timeout=1800, binary=None):
@@ -291,6 +331,7 @@ class Check:
         self.known_lines.append(what)
 
     def finish(self, coverage, assumptions=()):
+        self._join_coqchk()
         # a broken proof obligation with no concrete failing input is still a violation
         if self.proof_broken and not any(s == "" for _, s in self.violations):
             self.violation({"property": self.pid, "kind": "proof-obligation",
